@@ -91,11 +91,17 @@ def docBothPrincipals : Json :=
 def docStringPrincipal : Json := .obj [(kStatement, stmtWith (.str nAllow) [(kPrincipal, .str sRoot)])]
 def docNullPrincipal : Json := .obj [(kStatement, stmtWith (.str nAllow) [(kNotPrincipal, .null)])]
 
-/-! documents outside the grammar that are accepted (the two remaining `quirk` regions) -/
+/-! documents outside the grammar that are accepted (the remaining `quirk` region) -/
 def docEffectObjectForm : Json := .obj [(kStatement, stmtWith (.obj [(nAllow, .null)]) [])]
-def docArrayForm : Json := .arr [.str n2012, .null, stmtWith (.str nAllow) []]
 
-/-- what the two are read as (and the former two were): `doc2` without / with its version -/
+/-! the policy written as an array `[version, id, statement]`: accepted before the repair of `Policy`'s
+    reader (read like `doc2`), refused now; with a statement list, and with fewer / more elements -/
+def docArrayForm : Json := .arr [.str n2012, .null, stmtWith (.str nAllow) []]
+def docArrayFormList : Json := .arr [.null, .str sTrue, .arr [stmtWith (.str nAllow) []]]
+def docArrayFormShort : Json := .arr [.str n2012, .null]
+def docArrayFormLong : Json := .arr [.str n2012, .null, stmtWith (.str nAllow) [], .null]
+
+/-- what `docEffectObjectForm` is read as (and the former witnesses were): `doc2` without / with its version -/
 def policy2 (v : Option Version) : Policy :=
   { version := v, id := none,
     statement := .one { sid := none, principal := none, effect := .allow, action := .action (.one sListBucket),
